@@ -34,7 +34,7 @@ def run(ctx: Ctx) -> None:
         ctx.lean_audit(MODULES)
         if not ctx.quick:
             ctx.lean_check_olean(MODULES)
-    evalenv.configure_cer_based()
+    E.configure(ctx.rng)  # evaluators / providers suspend under a random schedule half of the time
     rng = ctx.rng
     ops = (T.OR, T.XOR, T.AND)
     exprs = []
